@@ -451,8 +451,9 @@ impl Apply for ContextLookup<'_> {
                 let coverages_len = coverages.len();
 
                 let match_func = |glyph, index| {
-                    let coverage = coverages.get(index).unwrap();
-                    coverage.get(glyph).is_some()
+                    coverages
+                        .get(index)
+                        .map_or(false, |coverage| coverage.get(glyph).is_some())
                 };
 
                 let mut match_end = 0;
@@ -605,18 +606,21 @@ impl Apply for ChainedContextLookup<'_> {
                 coverage.get(glyph)?;
 
                 let back = |glyph, index| {
-                    let coverage = backtrack_coverages.get(index).unwrap();
-                    coverage.contains(glyph)
+                    backtrack_coverages
+                        .get(index)
+                        .map_or(false, |coverage| coverage.contains(glyph))
                 };
 
                 let ahead = |glyph, index| {
-                    let coverage = lookahead_coverages.get(index).unwrap();
-                    coverage.contains(glyph)
+                    lookahead_coverages
+                        .get(index)
+                        .map_or(false, |coverage| coverage.contains(glyph))
                 };
 
                 let input = |glyph, index| {
-                    let coverage = input_coverages.get(index).unwrap();
-                    coverage.contains(glyph)
+                    input_coverages
+                        .get(index)
+                        .map_or(false, |coverage| coverage.contains(glyph))
                 };
 
                 let mut end_index = ctx.buffer.idx;
